@@ -87,3 +87,16 @@ def moved_class_same_module_reference() -> pg.Pkg:
     pkg.modules.append(m)
     pkg.inits[("pk", "corepart")] = [pg.Reexport("name", "pk.corepart.shapesmod", "RoundThing", None, "rel")]
     return pkg
+
+
+def same_named_module_reexport() -> pg.Pkg:
+    """Two modules called 'tools' in different packages; only one of them is re-exported as a whole module."""
+    pkg = pg.Pkg()
+    pkg.modules.append(pg.Mod(("pk", "alpha"), "tools", decls=[pg.Fn("alphatool"), pg.Cls("AlphaThing", methods=[pg.Fn("go", role="inst")])]))
+    pkg.modules.append(pg.Mod(("pk", "beta"), "tools", decls=[pg.Fn("betatool"), pg.Cls("BetaThing", methods=[pg.Fn("run", role="inst")])]))
+    pkg.inits[("pk",)] = [pg.Reexport("modalias", "pk.alpha.tools", None, "shown_tools", "abs")]
+    # ... and a relative name re-export in one package is taken for a re-export of the same-named module elsewhere
+    pkg.modules.append(pg.Mod(("pk", "alpha"), "shapes", decls=[pg.Cls("RoundThing", methods=[pg.Fn("area", role="inst", ret="int")])]))
+    pkg.modules.append(pg.Mod(("pk", "beta"), "shapes", decls=[pg.Cls("RoundThing", methods=[pg.Fn("volume", role="inst", ret="int")])]))
+    pkg.inits[("pk", "alpha")] = [pg.Reexport("name", "pk.alpha.shapes", "RoundThing", None, "rel")]
+    return pkg
